@@ -6,6 +6,7 @@ CONSTANTS
   Fams <- FamsAll
   DTypes <- DT0
   DataSets <- DS1
+  TempPairs <- TP2
   Fixes <- NoFixes
 INIT Init
 NEXT Next
